@@ -56,6 +56,18 @@ _EXTERNAL_TYPES = {"numbers.Number": None, "collections.abc.Mapping": dict, "col
                    "datetime.timedelta": None}
 
 
+def _fold_repr(o):
+    """repr() as Python computes it: the class's own __repr__ for an object of a folded class"""
+    if isinstance(o, Stub) and o.cls is not None and Stub._active is not None:
+        ok, v = o._dunder("__repr__")
+        if ok:
+            return v
+        raise AnalysisError(f"constfold: repr() of {o!r} is the default object representation (address dependent)")
+    if isinstance(o, (list, tuple, dict, set)) and any(isinstance(x, Stub) for x in (o.values() if isinstance(o, dict) else o)):
+        raise AnalysisError("constfold: repr() of a container of folded objects")
+    return repr(o)
+
+
 def _isinstance(v, t):
     ts = t if isinstance(t, tuple) and not (len(t) == 2 and t[0] == "external") else (t,)
 
@@ -98,7 +110,7 @@ _BUILTINS = {
     "range": range, "str": str, "int": int, "float": float, "bool": bool, "sorted": sorted,
     "zip": zip, "enumerate": enumerate, "min": min, "max": max, "sum": sum, "abs": abs,
     "any": any, "all": all, "reversed": reversed, "chr": chr, "ord": ord, "round": round,
-    "True": True, "False": False, "None": None, "isinstance": _isinstance, "repr": repr,
+    "True": True, "False": False, "None": None, "isinstance": _isinstance, "repr": (lambda o: _fold_repr(o)),
     "divmod": divmod, "pow": pow, "format": format, "next": _next, "iter": list,
     "hash": hash, "id": id, "type": lambda v: _type_of(v), "vars": lambda v: _vars_of(v),
     "callable": lambda v: callable(v) or isinstance(v, (FuncRef, ClassRef)) or (
@@ -115,9 +127,9 @@ _SAFE_METHODS = {
     list: {"append", "extend", "index", "count", "copy", "insert", "pop", "sort", "reverse", "remove", "clear"},
     tuple: {"index", "count"},
     float: {"is_integer", "hex", "as_integer_ratio"},
+    int: {"is_integer", "bit_length", "as_integer_ratio", "to_bytes"},        # (int.is_integer: Python 3.12, the repo's interpreter)
     _dt.timedelta: {"total_seconds"},
     _collections.deque: {"append", "appendleft", "pop", "popleft", "clear", "extend", "count", "copy"},
-    int: {"bit_length"},
     set: {"add", "union", "update", "copy", "discard"},
     frozenset: {"union"},
 }
@@ -1005,9 +1017,14 @@ class Folder:
             if b is not None and b.kind == "module":
                 return self.value(b.target, x.attr)
             if b is not None and b.kind == "external":
+                if b.target == "re" and x.attr in ("I", "IGNORECASE", "M", "MULTILINE", "S", "DOTALL", "U", "UNICODE", "X", "VERBOSE",
+                                                   "A", "ASCII"):
+                    return int(getattr(_re, x.attr))          # a flag is a number
                 return ("external", f"{b.target}.{x.attr}")
         obj = self._eval(base, e)
         if isinstance(obj, Stub):
+            if x.attr == "__dict__" and "__dict__" not in obj.attrs and "__list__" not in obj.attrs and obj.cls is not None:
+                return obj.attrs          # the instance dictionary of a plain object (live: a memo stored there is an attribute)
             if x.attr in obj.attrs:
                 return obj.attrs[x.attr]
             if obj.cls is not None:
@@ -1345,6 +1362,8 @@ class Folder:
                 raise AnalysisError(f"constfold: {dotted}: {ex}")
         if dotted == "re.compile":
             return RegexConst(args[0], args[1] if len(args) > 1 else kw.get("flags", 0))
+        if dotted == "re.escape":
+            return _re.escape(*args)
         if dotted.startswith("re.") and dotted[3:] in _RE_FUNCS:
             return _re_apply(dotted[3:], args, kw)
         if dotted in ("xml.sax.saxutils.escape", "xml.sax.saxutils.unescape", "xml.sax.saxutils.quoteattr",
